@@ -58,6 +58,9 @@ def _point(fn_local, t, q):
 
 def run(ctx):
     rep = ctx.rep
+    rep.rule("C19.R5", "RATTLE's stage-1 Newton solves run with the solver's configured options: order, drift and reversibility hold 'up to the nonlinear-solver tolerance' the caller asked for, not up to fsolve's default 1e-6", 1)
+    from .c23 import options_forwarded
+    options_forwarded(ctx, "C19.R5", only="cardillo/solver/rattle.py")
     rep.rule("C19.R1", "stage 1 and stage 2 momentum balances are adjoint: same force families, same dt-weights relative to the mass term, mirrored evaluation points, mid-step velocity", 5)
     rep.rule("C19.R2", "symmetric kinematic equation (both end points weighted equally, evaluated with the mid-step velocity)", 4)
     rep.rule("C19.R3", "cached operators of stage 1 are re-evaluated at the end point with the System method stage 2 uses", 6)
@@ -340,4 +343,14 @@ NEUTRAL = [
     dict(id="c19-n2", what="stage-2 right-hand side with the factor distributed", file=RT,
          old="                    - 0.5\n                    * self.dt\n                    * (\n                        self.system.h(tn1, qn1, un12)\n",
          new="                    - (self.dt / 2)\n                    * (\n                        self.system.h(tn1, qn1, un12)\n"),
+]
+
+MUTANTS += [
+    dict(id="c19-r5-seed", canary=True, what="[seeded by sub-agent] Rattle._solve_nonlinear_system: merged fsolve call drops options=self.options (stage 1 solved to the default 1e-6)", file='cardillo/solver/rattle.py',
+         old="                jac=lu,\n                fun_args=(y,),\n                options=self.options,\n", new="                jac=lu,\n                fun_args=(y,),\n", expect="C19.R5"),
+]
+
+NEUTRAL += [
+    dict(id="c19-n-r5", canary=True, what="Rattle._solve_nonlinear_system: the two fsolve calls merged into one that still forwards self.options", file='cardillo/solver/rattle.py',
+         old='        if self.options.reuse_lu_decomposition:\n            sol = fsolve(\n                lambda x, y, *args: self.R_x1(x, y, *args),\n                x0,\n                jac=lu,\n                fun_args=(y,),\n                options=self.options,\n            )\n        else:\n            sol = fsolve(\n                lambda x, y, *args: self.R_x1(x, y, *args),\n                x0,\n                jac=lambda x, y, *args: self._J_x1(x, y, *args),\n                fun_args=(y,),\n                jac_args=(y,),\n                options=self.options,\n            )\n\n', new='        jac = lu if self.options.reuse_lu_decomposition else self._J_x1\n        sol = fsolve(self.R_x1, x0, jac=jac, fun_args=(y,), jac_args=(() if self.options.reuse_lu_decomposition else (y,)), options=self.options)\n\n'),
 ]
